@@ -33,6 +33,10 @@ def _cases(tier):
             yield {"h": [["G", spec]], "opts": "std", "merge": merge}
     for spec in A.sibling_graph_specs():
         yield {"h": [["G", spec]], "opts": "std", "merge": "default"}
+    # a Literal value with a line-separator character inside a class that the nested layout indents
+    for spec in A.graph_specs(3, payloads=("P1", "P3u"), wrappers=("plain", "list")):
+        if "P3u" in A.graph_name(spec) and A.graph_size(spec) >= 2:
+            yield {"h": [["G", spec]], "opts": "std", "merge": "default"}
     for lits in LIT_SETS:
         for ml in (0, 1, 2, 3, 10, 16):
             yield {"h": lits, "opts": "lit", "max_literals": ml}
